@@ -71,6 +71,7 @@ def gen(rng, tier):
     # first arguments in queries and retracts); clear() - API or Python predicate - while queries and retracts are suspended
     extra = [D.gen_big_history(rng) for i in range(40 if tier == 'quick' else 500)]
     extra += [D.gen_clear_history(rng) for i in range(40 if tier == 'quick' else 600)]
+    extra += [D.gen_dbprog_grown(rng, loopy=0.5) for i in range(30 if tier == 'quick' else 500)]
     return D.spread(cases, extra)
 
 def builtin_corpus():
